@@ -486,6 +486,9 @@ func (it *Interp) opNewBatch(op *Op) {
 	}
 	valid := !it.locked() && op.N >= 0 && it.relsValid(maskOf(list), op.Rels)
 	var first int
+	if valid && op.N >= 63 {
+		it.count("batch-of-63-or-more-entities")
+	}
 	if valid {
 		first = len(it.M.Ents)
 		it.sel = map[int]bool{}
